@@ -85,6 +85,23 @@ ListWalks ==
   \cup {<< O("AddMany", 0, 0, l), O("AddMany", 0, 0, m) >> : l \in DOMAIN Lists, m \in DOMAIN Lists}
   \cup {<< O("AddMany", 0, 0, l), O("Remove", x, 0, ""), O("Remove", x, 0, "") >> : l \in DOMAIN Lists, x \in {7, 9, 65535}}
 
+\* ---- fifth family: object states that only a particular sequence reaches (a dense container that was cleared
+\* or thinned out, an emptied array, a run container that was touched, a deserialised empty set), then a neutral
+\* operation (serialise + deserialise, clone, optimise, export as runs), then a mutator at the universe's edges
+StateBuilders ==
+  [ clearedDense |-> << O("AddRange", 0, 5000, ""), O("Clear", 0, 0, ""), O("Add", 65535, 0, ""), O("Add", 3, 0, "") >>,
+    clearedDense0 |-> << O("AddRange", 0, 5000, ""), O("Clear", 0, 0, "") >>,
+    thinnedDense |-> << O("AddRange", 0, 4200, ""), O("Add", 65535, 0, ""), O("RemoveRange", 100, 4200, "") >>,
+    emptiedArray |-> << O("Add", 7, 0, ""), O("Remove", 7, 0, "") >>,
+    runsTouched |-> << O("AddRange", 0, 5000, ""), O("Add", 65535, 0, "") >>,
+    runsCut |-> << O("AddRange", 10, 5000, ""), O("Remove", 10, 0, ""), O("Clear", 0, 0, "") >>,
+    decodedEmpty |-> << O("Codec", 0, 0, "") >> ]
+StateFollow == {O("Add", 65535, 0, ""), O("Add", 0, 0, ""), O("Remove", 65535, 0, ""), O("Remove", 3, 0, ""),
+                O("AddRange", 65530, 65535, "")}   \* the exclusive end is a uint16_t: 65536 is not expressible
+StateWalks ==
+  {StateBuilders[b] \o << O(n, 0, 0, ""), f >> : b \in DOMAIN StateBuilders, n \in Neutral, f \in StateFollow}
+  \cup {StateBuilders[b] \o << f, O("Codec", 0, 0, "") >> : b \in DOMAIN StateBuilders, f \in StateFollow}
+
 VARIABLES set, hist
 vars == <<set, hist>>
 Init == set = Empty /\ hist = <<>>
@@ -112,7 +129,13 @@ ListsFam == /\ hist = <<>>
                  /\ set' = ApplySeq(Empty, w)
                  /\ hist' = h \o [i \in 1..(Depth + 1 - Len(h)) |-> <<"Codec", 0, 0, "">>]
                  /\ PrintT(<<"WALK", hist'>>)
-Next == (\E o \in Alphabet : Step(o)) \/ Algebra \/ Ranges \/ ListsFam
+StatesFam == /\ hist = <<>>
+             /\ \E w \in StateWalks :
+                  LET h == AsHist(w) IN
+                  /\ set' = ApplySeq(Empty, w)
+                  /\ hist' = h \o [i \in 1..(Depth + 1 - Len(h)) |-> <<"Clone", 0, 0, "">>]
+                  /\ PrintT(<<"WALK", hist'>>)
+Next == (\E o \in Alphabet : Step(o)) \/ Algebra \/ Ranges \/ ListsFam \/ StatesFam
 Spec == Init /\ [][Next]_vars
 
 \* invariants of the abstract machine itself
